@@ -646,3 +646,121 @@ def c10(ctx):
                     flushes=(agg.n("memtable_flushes"), 50)),
         assumptions=["a clean sanitizer run = no race among the access pairs actually executed; GNU atomics are modelled "
                      "exactly by TSan; the harness logs through its own callback (no stdio locking noise)"])
+
+
+# ---------------------------------------------------------------------------
+# C15: WAL framing (fmtmon_log, independent codec as oracle)
+
+HARNESSES["fmtmon_log"] = (["fmtmon_log.c", "vh.c", "refcodec.c"], ())
+HARNESS_FLAVOURS["fmtmon_log"] = ("rel", "asan")
+
+
+def fmtlog_jobs(ctx, flavour, mode, first, count, shards, extra=()):
+    jobs = []
+    per = max(1, count // shards)
+    for k in range(shards):
+        d = os.path.join(ctx.scratch, "fl-%s-%s-%d-%d" % (flavour, mode, first, k))
+        os.makedirs(d, exist_ok=True)
+        n = per if k < shards - 1 else count - per * (shards - 1)
+        jobs.append(hjob("fmtmon_log", flavour,
+                         ["--seed", ctx.seed, "--mode", mode, "--first", first + k * per, "--count", n, "--dir", d] + list(extra),
+                         "%s/%s/%d" % (flavour, mode, k), timeout=3000))
+    return jobs
+
+
+@register("C15")
+def c15(ctx):
+    """WAL framing exact, standard, torn-tail tolerant (real writer/reader vs independent codec; bitwise CRC-32C)."""
+    if ctx.replay:
+        return do_replay(ctx)
+    J = lambda *a, **k: fmtlog_jobs(ctx, *a, **k)
+    if ctx.quick:
+        jobs = (J("rel", "crc", 0, 72000, 1, ["--hw", 0]) + J("rel", "crc", 0, 72000, 1, ["--hw", 1]) +
+                J("rel", "grid", 0, 40000, 4) + J("rel", "random", 0, 2400, 2) + J("rel", "trunc", 0, 240, 3) +
+                J("rel", "trunc", 0, 512, 2, ["--exhaustive", 1]) + J("rel", "alter", 0, 480, 12) +
+                J("rel", "alter", 0, 64, 4, ["--exhaustive", 1]) +
+                J("asan", "grid", 0, 2000, 1) + J("asan", "alter", 0, 24, 1) + J("asan", "trunc", 0, 12, 1))
+    else:
+        w = 5520 + (ctx.seed * 3000000) % 9045532
+        jobs = (J("rel", "crc", 0, 80000, 1, ["--hw", 0]) + J("rel", "crc", 0, 80000, 1, ["--hw", 1]) +
+                J("rel", "grid", 0, 5520, 2) + J("rel", "grid", w, 3000000, 48) + J("rel", "random", 0, 100000, 16) +
+                J("rel", "trunc", 0, 3200, 16) + J("rel", "trunc", 0, 25600, 16, ["--exhaustive", 1]) +
+                J("rel", "alter", 0, 6400, 32) + J("rel", "alter", 0, 3840, 48, ["--exhaustive", 1]) +
+                J("asan", "grid", 0, 60000, 8) + J("asan", "alter", 0, 400, 8) + J("asan", "random", 0, 2000, 4))
+    agg = Agg().add(runner.run_jobs(jobs))
+    n = agg.n
+    evaluations = sum(n("c15_cases_" + m) for m in ("grid", "random", "trunc", "alter", "crc"))
+    extras = dict(
+        cases_by_mode={m: n("c15_cases_" + m) for m in ("grid", "random", "trunc", "alter", "crc")},
+        records_written=n("c15_records_written"), records_read_real_reader=n("c15_records_read_real"),
+        records_read_reference=n("c15_records_read_ref"), bytes_compared_with_reference_encoder=n("c15_bytes_compared"),
+        real_file_variant_cases=n("c15_file_variant_cases"), multiblock_logs=n("c15_logs_multiblock"),
+        cuts=n("c15_cuts"), cuts_inside_fragmented_records=n("c15_cuts_midrecord"),
+        alterations=n("c15_alt_total"), alterations_by_kind={k: n("c15_alt_" + k) for k in ("bit", "zero", "ff", "burst", "zburst", "sector")},
+        alterations_that_lost_records=n("c15_alt_lossy"), alterations_absorbed_without_loss=n("c15_alt_absorbed"),
+        torn_tail_exemptions=n("c15_alt_torn_tail_exempt"), records_checked_for_resume_after_damage=n("c15_alt_resume_records_checked"),
+        crc_length_alignment_pairs=n("c15_crc_len_align"), crc_chained_splits=n("c15_crc_splits"),
+        crc_random_bytes=n("c15_crc_random_bytes"), crc_mask_values=n("c15_crc_mask_values"),
+        crc_hardware_path_active=n("c15_crc_hw_active"), nontrivial_cases=n("c15_nontrivial_cases"))
+    return runner.finish(
+        "C15", "exploration", ctx.tier, ctx.seed, ctx.t0, agg,
+        rule="boundary grid of (initial length, record length) round trips, random record mixes, truncation at (every / "
+             "boundary-stratified) byte, single-bit/byte/burst/sector alterations: the real writer's bytes must equal an "
+             "independently written encoder's, the real reader and the independent decoder must return exactly the written "
+             "records, cuts are silent, alterations never yield alien records, are reported and reading resumes; CRC-32C "
+             "against a bitwise reference for all lengths 0..4096 x alignments 0..15 on the portable and the hardware path; "
+             "distinct = (fragment-type sequence, damage location class) shapes",
+        evaluations=evaluations, distinct_nontrivial=agg.d("c15_shape"), extras=extras,
+        floors=dict(grid=(n("c15_cases_grid"), 5000), cuts=(n("c15_cuts"), 50000), alts=(n("c15_alt_total"), 20000),
+                    crc=(n("c15_crc_len_align"), 60000), shapes=(agg.d("c15_shape"), 500)),
+        assumptions=["harness/refcodec.c (no lcdb headers) implements the LevelDB log format and the bitwise CRC-32C",
+                     "an altered file that is byte-for-byte a legal cut of a valid log falls under the truncation clause"])
+
+
+
+# ---------------------------------------------------------------------------
+# C11: corruption detection
+
+HARNESSES["corruptmon"] = (["corruptmon.c", "refcodec.c", "dbh.c", "model.c", "vh.c", "iomon.c"], build.WRAP_IO)
+HARNESS_FLAVOURS["corruptmon"] = ("rel", "asan")
+
+
+@register("C11")
+def c11(ctx):
+    """Corrupted files are detected, never turned into wrong answers (byte x alteration enumeration on generated DBs)."""
+    if ctx.replay:
+        return do_replay(ctx)
+    jobs = []
+    if ctx.quick:
+        plan = [("rel", db, 4, 24, 0) for db in range(4)] + [("asan", 10, 8, 64, 0)]
+        plan = [(fl, db, n, st, ex, range(n) if fl == "rel" else range(1)) for fl, db, n, st, ex in plan]
+    else:
+        plan = [("rel", db, 16, 1, 1, range(16)) for db in range(6)] + [("asan", 10 + db, 16, 8, 0, range(4)) for db in range(2)]
+    for flavour, db, nshards, stride, exhaustive, shards in plan:
+        for k in shards:
+            d = os.path.join(ctx.scratch, "cor-%s-%d-%d" % (flavour, db, k))
+            jobs.append(hjob("corruptmon", flavour,
+                             ["--seed", ctx.seed, "--db", db, "--shard", k, "--nshards", nshards, "--stride", stride,
+                              "--exhaustive", exhaustive, "--dir", d], "%s/db%d/%d" % (flavour, db, k), timeout=3000))
+    agg = Agg().add(runner.run_jobs(jobs))
+    n = agg.n
+    extras = dict(databases_generated=n("databases"), tables_generated=n("generated_tables"),
+                  cases_by_file_kind={k: n("cases_" + k) for k in ("table", "log", "manifest", "current")},
+                  alterations_by_kind={k: n("alt_" + k) for k in ("bitflip", "byte00", "byteff", "truncate", "zero-sector")},
+                  gets=n("gets"), scans=n("scans"),
+                  outcomes=dict(open_failed=n("outcome_open_failed"), error_status_reported=n("outcome_error_status_reported"),
+                                fully_correct_harmless=n("outcome_fully_correct_harmless"),
+                                subset_of_whole_batches=n("outcome_subset_of_whole_batches")))
+    return runner.finish(
+        "C11", "fault_enumeration", ctx.tier, ctx.seed, ctx.t0, agg,
+        rule="generated databases (several tables over >=3 levels, small blocks, snappy/bloom variants, live WAL, MANIFEST); "
+             "one alteration per case: each bit flip, byte:=00/ff, truncation, zero-filled 512-byte sector at every byte of "
+             "footer/index/metaindex/filter/trailers and a stride over data bytes (every byte in thorough) of every table, "
+             "WAL, MANIFEST and CURRENT; tables under paranoid_checks+verify_checksums: get/scan correct or error status; "
+             "WAL/MANIFEST/CURRENT: contents = fold of the whole batches whose marker is present; distinct = (file kind, "
+             "region, alteration kind) classes",
+        evaluations=n("cases"), distinct_nontrivial=agg.d("c11_case_class"), extras=extras,
+        exhaustive=(not ctx.quick),
+        floors=dict(cases=(n("cases"), 5000), classes=(agg.d("c11_case_class"), 25),
+                    detected=(n("outcome_error_status_reported") + n("outcome_open_failed"), 1000)),
+        assumptions=["single alteration per case; region map of a table from the independent decoder (refcodec)"])
